@@ -318,6 +318,10 @@ func wideCases(g *vlib.Rng) {
 		if g.Chance(2, 3) {
 			ng = genScalar(g, edges)
 		}
+		if i%6 == 5 { // negative na on a wide operand
+			na = negScalar(g, edges)
+			r.Hit("ecmult/wide:negative-na")
+		}
 		p := randPoint(g)
 		if i%7 == 0 {
 			p = G
